@@ -169,7 +169,12 @@ def run_reference(schema, text, variables=None):
         v = "x" if is_leaf_type(named) else {"__typename": {"SearchResult": "Post", "Node": "User"}.get(named.name, named.name)}
         if named.name == "Int":
             v = 1
-        return [v] if is_list_type(t) else v
+        while is_list_type(t):      # one item per list level
+            v = [v]
+            t = t.of_type
+            if is_non_null_type(t):
+                t = t.of_type
+        return v
     res = execute_sync(schema, doc, variable_values=variables or {}, field_resolver=resolver, type_resolver=lambda v, i, t: v["__typename"])
     return res, sorted(rec)
 
@@ -231,8 +236,12 @@ def member(cls, graphql_name):
     """The builder member for a GraphQL field, whatever spelling the generator chose for it (the document decides)."""
     from ariadne_codegen.utils import str_to_snake_case
     sn = str_to_snake_case(graphql_name)
-    for cand in (sn, sn + "_", graphql_name, graphql_name + "_", sn.lstrip("_"), sn.lstrip("_") + "_"):
-        if cand in vars(cls) or hasattr(cls, cand):
+    cands = (graphql_name, graphql_name + "_", sn, sn + "_", sn.lstrip("_"), sn.lstrip("_") + "_")
+    for cand in cands:            # the class's own members first (inherited helpers such as type.mro must not win)
+        if cand in vars(cls):
+            return getattr(cls, cand)
+    for cand in cands:
+        if hasattr(cls, cand):
             return getattr(cls, cand)
     raise AttributeError(f"{cls.__name__} has no member for GraphQL field {graphql_name!r} (members: {[k for k in vars(cls) if not k.startswith('__')][:12]})")
 
@@ -276,6 +285,25 @@ def derived_name_cases(tier):
         }
         for kind, (sch, py, gql, extra) in kinds.items():
             cases.append(dict(kind="expr", options={}, schema_text=sch, ops=[("query", [(py, gql, set())])], tags={"derived_names", f"name:{n}@{kind}"} | extra))
+            if camel and not kw and not keyword.iskeyword(n):
+                # with convert_to_snake_case = false the members keep the GraphQL spelling; the documents must stay right for every member kind
+                cases.append(dict(kind="expr", options={"convert_to_snake_case": False}, schema_text=sch, ops=[("query", [(py, gql, set())])],
+                                  tags={"derived_names", f"name:{n}@{kind}", "snake_off"}))
+    return cases
+
+
+def derived_shape_cases(tier):
+    """Every wrapper shape (14) around an object type as nested method field and as root field, and around Int as argument type."""
+    from mc import corpus
+    cases = []
+    for i, shape in enumerate(corpus.SHAPES):
+        t_obj, t_int = shape.replace("T", "Cell"), shape.replace("T", "Int")
+        r, c = "rows" + chr(97 + i), "cells" + chr(97 + i)    # (no digits / capitals: method fields with such names are the known camel_method_field finding)
+        sch = f"type Cell {{ zz: ID }}\ntype Board {{ {r}: {t_obj} zz: ID }}\ntype Query {{ board: Board {c}: {t_obj} }}\n"
+        cases.append(dict(kind="expr", options={}, schema_text=sch, ops=[("query", [(f"Query.board().fields(_m(BoardFields, '{r}')().fields(CellFields.zz))", f"board {{ {r} {{ zz }} }}", set())])],
+                          tags={"derived_shapes", f"shape:{shape}", "shape_at:nested_field"}))
+        cases.append(dict(kind="expr", options={}, schema_text=sch, ops=[("query", [(f"_m(Query, '{c}')().fields(CellFields.zz)", f"{c} {{ zz }}", set())])],
+                          tags={"derived_shapes", f"shape:{shape}", "shape_at:root_field"}))
     return cases
 
 
@@ -417,7 +445,7 @@ def main(tier):
             pass
         for o in sel:
             cases.append(dict(kind="expr", options=cfg, ops=[(o[0], o[1])], tags=o[2]))
-    cases += derived_name_cases(tier) + derived_graph_cases(tier)
+    cases += derived_name_cases(tier) + derived_graph_cases(tier) + derived_shape_cases(tier)
     results = pool.run_cases(evaluate, cases, timeout=300, progress=500)
     docs = 0
     distinct = set()
